@@ -1,12 +1,21 @@
 (** Pinned statements of the C18 property theorems: compiled on every check, so a theorem cannot be
     weakened silently. *)
-From V Require Import Base.Util C18.Model C18.Spec C18.Corr C18.JsonProofs C18.Proofs C18.Properties.
+From V Require Import Base.Util C18.Model C18.Spec C18.Corr C18.JsonProofs C18.Proofs C18.NoPanic C18.Properties.
 Local Open Scope N_scope.
 
 Check (C18_exit_zero_iff_no_diagnostic :
   forall p,
   crashed (run p) = false -> (exit_status (run p) = 0 <-> clean p = true)).
 Print Assumptions C18_exit_zero_iff_no_diagnostic.
+
+Check (C18_no_panic_guard :
+  forall p, no_panic_b p = true -> crashed (run p) = false).
+Print Assumptions C18_no_panic_guard.
+
+Check (C18_exit_zero_iff_no_diagnostic_guarded :
+  forall p,
+  no_panic_b p = true -> (exit_status (run p) = 0 <-> clean p = true)).
+Print Assumptions C18_exit_zero_iff_no_diagnostic_guarded.
 
 Check (C18_panic_exits_zero_refuted :
   exists p, exit_status (run p) = 0 /\ clean p = false /\ outcome_written (run p) <> []).
